@@ -125,9 +125,15 @@ def check_backends(inp):
       with fec.for_each_client_backend(be):
         f = fec.for_each_client(init, lambda s, b: step(s, b)[0], final)
         box = {'w': shared['w']}
-        list(f(box, clients))
-        box['w'] = shared['w'] * 3.0 + 1.0
-        got2 = list(f(box, clients))
+        first = list(f(box, clients))
+        # the normal multi-round loop: the next shared input is computed from this call's outputs (arrays that live on a
+        # device of the backend), and replaces the content of the same container
+        box['w'] = sum(o['out'] for _, o in first) / max(len(first), 1) * 0.5 + shared['w'] * 3.0 + 1.0
+        try:
+          got2 = list(f(box, clients))
+        except Exception as e:  # pylint: disable=broad-except
+          return (f'{be} backend ({dev} devices): a second call whose shared input was computed from the first call\'s outputs '
+                  f'fails: {type(e).__name__}: {str(e)[:200]}')
       want2 = {cid: o for cid, o, _ in reference(box, clients, nan_pad)}
       for g in got2:
         if not close(g[1], want2[g[0]]):
